@@ -31,6 +31,9 @@ type Manifest struct {
 	Property  string       `json:"property"`
 	Package   string       `json:"package"` // directory relative to /repo
 	Files     []string     `json:"files"`   // harness sources relative to the manifest
+	// Overlays adds further files to other packages of the repository (stand-ins that need access
+	// to unexported state): repo-relative target path -> source relative to the manifest
+	Overlays map[string]string `json:"overlays"`
 	Harnesses []HarnessCfg `json:"harnesses"`
 }
 
@@ -266,6 +269,13 @@ func load(repo string, m *Manifest, mdir string) (*ssa.Program, *ssa.Package, er
 		// shared harness sources carry the placeholder package clause "package VERIFPKG"
 		b = []byte(strings.Replace(string(b), "package VERIFPKG", "package "+pkgName, 1))
 		overlay[filepath.Join(pkgDir, "zz_verif_"+filepath.Base(f))] = b
+	}
+	for target, src := range m.Overlays {
+		b, err := os.ReadFile(filepath.Join(mdir, src))
+		if err != nil {
+			return nil, nil, err
+		}
+		overlay[filepath.Join(repo, target)] = b
 	}
 	cfg := &packages.Config{
 		Mode:    packages.LoadAllSyntax,
